@@ -5,6 +5,10 @@
 (*   Open     a new CDXMLFile object h and its keys()                                              *)
 (*   Parsed   CDXMLFile[label] on object h: outcome and abstracted result                          *)
 (*   Again    a repeated look-up, digests only                                                     *)
+(*   Keys     keys()/len()/iteration made between look-ups                                         *)
+(*   Mutated  the caller edited a molecule it had been given (hydrogens added, charge edited,      *)
+(*            atom deleted, coordinates moved): later look-ups must not show it (content only:     *)
+(*            whether a look-up returns a new object is recorded, never judged)                    *)
 (*   Related  the result on this file next to the result of the same label on the file it was      *)
 (*            generated from (rel = "mirror": stereo marks swapped; rel = "same": layout / ids /    *)
 (*            order changed only), with the signed volumes of every centre in both models          *)
@@ -23,7 +27,11 @@ ToSet(s) == {s[i] : i \in 1..Len(s)}
 (* guards: is event l explained?  (state predicates; the only variable that moves is memo) *)
 GDrawn   == l = 1 /\ Ev.ev = "Drawn"
 GOpen    == l > 1 /\ Ev.ev = "Open" /\ ToSet(Ev.keys) = LabelTexts(D)
-GParsed  == l > 1 /\ Ev.ev = "Parsed" /\ Accepts(D, memo, Ev.label, Ev.out, Ev.R)
+(* keys() / len() / iteration between look-ups: always the labels of the drawing *)
+GKeys    == l > 1 /\ Ev.ev = "Keys" /\ ToSet(Ev.keys) = LabelTexts(D) /\ Ev.n = Cardinality(LabelTexts(D))
+(* the caller edited a molecule it had been given (public calls); the event only has to name such an object *)
+GMutated == l > 1 /\ Ev.ev = "Mutated" /\ Ev.oid \in objs
+GParsed  == l > 1 /\ Ev.ev = "Parsed" /\ Accepts(D, memo, objs, Ev.label, Ev.out, Ev.R)
 AgainOK  == IF Ev.out = "ok"
               THEN Ev.label \in DOMAIN memo /\ Ev.fid = memo[Ev.label].fid /\ Ev.cdig = memo[Ev.label].cdig /\ Ev.gdig = memo[Ev.label].gdig
               ELSE Ev.label \notin DOMAIN memo
@@ -31,29 +39,31 @@ GAgain   == l > 1 /\ Ev.ev = "Again" /\ AgainOK
 SameObs  == Ev.label \in DOMAIN memo /\ Ev.R.fid = memo[Ev.label].fid /\ Ev.R.cdig = memo[Ev.label].cdig /\ Ev.R.gdig = memo[Ev.label].gdig
 RelBroken == BrokenRel(D.frags[Ev.R.fid], Ev.rel, Ev.base, Ev.R, Ev.keymap, ToSet(Ev.pairs))
 GRelated == l > 1 /\ Ev.ev = "Related" /\ SameObs /\ RelBroken = {}
-Explained == GDrawn \/ GOpen \/ GParsed \/ GAgain \/ GRelated
+Explained == GDrawn \/ GOpen \/ GKeys \/ GMutated \/ GParsed \/ GAgain \/ GRelated
 
 Why == CASE l = 1 -> {"FirstEventIsTheDrawing"}
-         [] Ev.ev = "Parsed"  -> Broken(D, memo, Ev.label, Ev.out, Ev.R)
+         [] Ev.ev = "Parsed"  -> BrokenAll(D, memo, objs, Ev.label, Ev.out, Ev.R)
          [] Ev.ev = "Again"   -> {"Deterministic"}
-         [] Ev.ev = "Open"    -> {"KeysAreTheLabels"}
+         [] Ev.ev \in {"Open", "Keys"} -> {"KeysAreTheLabels"}
+         [] Ev.ev = "Mutated" -> {"MutatedObjectWasHandedOut"}
          [] Ev.ev = "Related" -> IF SameObs THEN RelBroken ELSE {"NotTheValidatedResult"}
          [] OTHER -> {"UnknownEvent"}
 
-Reset == /\ file' = 0 /\ cache' = Empty /\ memo' = Empty /\ nlook' = 0 /\ last' = [act |-> "init"]
+Reset == /\ file' = 0 /\ cache' = Empty /\ memo' = Empty /\ nlook' = 0 /\ last' = [act |-> "init"] /\ objs' = {} /\ handed' = Empty
 NextTrace == ti' = ti + 1 /\ l' = 1 /\ Reset
 (* one event: either a step of Cdxml's property (memo remembers the first answer per label) or the verdict STUCK *)
 Step == /\ ti <= NT /\ l <= Len(Tr)
         /\ IF Explained
              THEN /\ memo' = IF Ev.ev = "Parsed" /\ Ev.out = "ok" THEN Remember(memo, Ev.label, Ev.R) ELSE memo
-                  /\ UNCHANGED <<file, cache, nlook, last>> /\ l' = l + 1 /\ ti' = ti
+                  /\ objs' = IF Ev.ev \in {"Parsed", "Again"} /\ Ev.out = "ok" THEN objs \cup {IF Ev.ev = "Parsed" THEN Ev.R.oid ELSE Ev.oid} ELSE objs
+                  /\ UNCHANGED <<file, cache, nlook, last, handed>> /\ l' = l + 1 /\ ti' = ti
              ELSE /\ PrintT(<<"VERDICT", Traces[ti].tid, "STUCK", l>>)
                   /\ PrintT(<<"WHY", Traces[ti].tid, l, Why>>)
                   /\ NextTrace
 Finish == /\ ti <= NT /\ l = Len(Tr) + 1
           /\ PrintT(<<"VERDICT", Traces[ti].tid, "ACCEPT">>)
           /\ NextTrace
-TraceInit == /\ file = 0 /\ cache = Empty /\ memo = Empty /\ nlook = 0 /\ last = [act |-> "init"] /\ ti = 1 /\ l = 1
+TraceInit == /\ file = 0 /\ cache = Empty /\ memo = Empty /\ nlook = 0 /\ last = [act |-> "init"] /\ objs = {} /\ handed = Empty /\ ti = 1 /\ l = 1
 TraceNext == Step \/ Finish
 TraceSpec == TraceInit /\ [][TraceNext]_tvars
 NoFiles == Empty
